@@ -897,3 +897,10 @@ def run_program(program, ctx):
 
 def cleanup():
     seams.uninstall()
+    # library objects (and whatever they captured at trace time) must not survive a run: a run has to
+    # be a pure function of (program, code), otherwise a violation caused by state left over from an
+    # earlier run in the same worker does not replay
+    if 'lib' in _cache:
+        _cache['lib']['objs'].clear()
+        if 'al' in _cache['lib']:
+            _cache['lib']['al']['objs'].clear()
